@@ -109,8 +109,17 @@ impl FixtureDatabase {
         // Get or build line index for O(1) line lookups (cached for performance)
         let line_index = self.get_line_index(&file_path, content);
 
+        // Remember the syntax tree of this (valid) version. Import lookups use it; while a later
+        // version of the file does not parse, the tree of the last valid version stays available,
+        // so the fixtures a conftest.py re-exports through its imports remain in effect.
+        let parsed = std::sync::Arc::new(parsed);
+        self.ast_cache.insert(
+            file_path.clone(),
+            (Self::hash_content(content), std::sync::Arc::clone(&parsed)),
+        );
+
         // Process each statement in the module
-        if let rustpython_parser::ast::Mod::Module(module) = parsed {
+        if let rustpython_parser::ast::Mod::Module(module) = parsed.as_ref() {
             debug!("Module has {} statements", module.body.len());
 
             // First pass: collect all module-level names (imports, assignments, function/class defs)
